@@ -43,7 +43,7 @@ def main():
     if a.only:
         hs = [h for h in hs if a.only in h.name]
     known, fixed = vf.load_known_findings()
-    known_keys = {k for k, (p, t) in known.items() if p == pid}
+    known_keys = {k for k, (p, t) in known.items() if pid in p.split(',')}
     # probes only run for findings that are listed
     hs = [h for h in hs if h.probe_for is None or h.probe_for in known_keys]
 
@@ -85,8 +85,8 @@ def main():
                 known_seen.append(h.probe_for)
                 lines.append("KNOWN-FINDING: property=%s %s [%s] (solver counterexample; native replay did not trip a sanitizer)" % (pid, known[h.probe_for][1], h.probe_for))
                 r.status = "known"
-            elif r.status in ("pass", "vacuous"):
-                r.status = "pass"   # finding no longer present: nothing printed
+            elif r.status == "pass":
+                pass                # finding no longer present: nothing printed
             elif r.status == "inconclusive":
                 inconclusive.append(r)
             else:
@@ -116,7 +116,11 @@ def main():
         exit_code = 2
 
     wall = time.time() - t0
+    seen = set()
     for l in lines:
+        if l.startswith("KNOWN-FINDING") and l in seen:
+            continue
+        seen.add(l)
         print(l)
     npass = sum(1 for r in results if r.status in ("pass", "known"))
     print("%s tier=%s harnesses=%d pass=%d violations=%d unconfirmed=%d inconclusive=%d errors=%d wall=%.1fs" % (
